@@ -223,7 +223,8 @@ def cbtf(m, b, k, a, freq, bset, save=None):
         displ = np.zeros(a.shape, dtype=complex)
         displ[:, pvnz] = -accel[:, pvnz] / Omega[pvnz] ** 2
         veloc = 1j * (Omega * displ)
-        frc = m @ accel + b @ veloc + k @ displ
+        bb = np.ix_(bset, bset)  # `a` (and `frc`) are in b-set order
+        frc = m[bb] @ accel + b[bb] @ veloc + k[bb] @ displ
     else:
         tf = None
         if isinstance(save, abc.MutableMapping):
